@@ -18,6 +18,8 @@ package rest
 //   burst (revision-tree, monitors only): writes on both sides WITHOUT waiting while a continuous
 //       push-and-pull replication runs; only quiescent observables are compared.
 //   vv (version-vector sub-protocol, monitors only): the same scenario shapes under the default (v4) protocol.
+//   lwread-vv (version-vector, monitors only): local-wins conflicts under push-and-pull with the active side's
+//       revision read by current version while the resolution write is in flight (data-store update callback).
 //   resolver (Coq cases + monitor): db.DefaultConflictResolver on pairs of (deleted, revision id), both
 //       orientations.
 //
@@ -37,6 +39,8 @@ import (
 	"sort"
 	"strconv"
 	"strings"
+	"sync"
+	"sync/atomic"
 	"testing"
 	"time"
 
@@ -1001,6 +1005,116 @@ func c06RunBurst(t *testing.T, rec *vRecorder, rng *vRand, v4 bool, idx int) {
 	}
 }
 
+// ---------------------------------------------------------------- local wins under the version-vector protocol
+
+// lwread: version-vector push-and-pull, a conflict the LWW resolver decides for the ACTIVE side (its write is
+// the later one), and a read of the active side's revision BY CURRENT VERSION while the resolution write is in
+// flight, forced from an update callback of the active side's data store (after the resolver evicted the
+// revision from the revision cache, before the document is written).  The resolution changes the revision-tree
+// id and the version history but keeps the current version, so a cached copy loaded at that moment is stale;
+// what the push half then sends must still be the resolved revision.
+func c06RunLocalWinsRead(t *testing.T, rec *vRecorder, rng *vRand, idx int) {
+	e := c06NewEnv(t, true, 2, "")
+	coll, cctx := e.act.GetSingleTestDatabaseCollectionWithUser()
+	lds, ok := base.AsLeakyDataStore(coll.GetCollectionDatastore())
+	if !ok {
+		rec.Err("infrastructure: active data store is not leaky")
+		t.Logf("C06 lwread: active data store is %T", coll.GetCollectionDatastore())
+		return
+	}
+	var descs []string
+	write := func(side, doc, kind, body int) bool {
+		descs = append(descs, c06Step{Kind: "w", Side: side, Doc: doc, W: kind, Body: body}.String())
+		return e.write(side, e.docs[doc], kind, c06BodyText(body))
+	}
+	// shape: 0 = both sides create the document; 1 = created on one side and synced, then both edit;
+	// the passive side always writes first, the active side last (so the active side's version is the LWW winner)
+	ok = true
+	for d := range e.docs {
+		shape := (idx + d) % 2
+		if shape == 1 {
+			ok = ok && write(d%2, d, c06Edit, 2)
+			_, ok1 := e.oneShot(db.ActiveReplicatorTypePushAndPull)
+			_, ok2 := e.oneShot(db.ActiveReplicatorTypePushAndPull)
+			descs = append(descs, "sync", "sync")
+			ok = ok && ok1 && ok2
+		}
+		for k := 0; k < 1+rng.Intn(2) && ok; k++ {
+			ok = write(1, d, c06Edit, 3+rng.Intn(2))
+		}
+		time.Sleep(2 * time.Millisecond)
+		for k := 0; k < 1+rng.Intn(2) && ok; k++ {
+			ok = write(0, d, c06Edit, 5+k)
+		}
+	}
+	if !ok {
+		rec.Err("infrastructure: lwread setup")
+		return
+	}
+	want := map[string]c06Obs{}
+	for _, d := range e.docs {
+		want[d] = e.observe(0, d)
+	}
+	// read by current version from inside the resolution write
+	var reads atomic.Int32
+	var busy sync.Map // per document: the read itself must not re-enter
+	useREST := idx%2 == 1
+	lds.SetUpdateCallback(func(key string) {
+		w, mine := want[key]
+		if !mine {
+			return
+		}
+		if _, again := busy.LoadOrStore(key, true); again {
+			return
+		}
+		defer busy.Delete(key)
+		if useREST {
+			_ = e.act.SendAdminRequest(http.MethodGet, "/"+e.act.GetSingleKeyspace()+"/"+key+"?rev="+strings.ReplaceAll(w.CV, "@", "%40"), "")
+		} else {
+			_, _ = coll.GetRev(cctx, key, w.CV, false, nil)
+		}
+		reads.Add(1)
+	})
+	descs = append(descs, "start:both (active side's revision read by cv inside every write of the document)")
+	if !e.sessionStart("both") || !e.waitQuiescent() || !e.sessionStop() {
+		lds.SetUpdateCallback(nil)
+		rec.Err("infrastructure: lwread session")
+		return
+	}
+	lds.SetUpdateCallback(nil)
+	_, ok1 := e.oneShot(db.ActiveReplicatorTypePull)
+	q1, ok2 := e.oneShot(db.ActiveReplicatorTypePush)
+	p2, ok3 := e.oneShot(db.ActiveReplicatorTypePull)
+	q2, ok4 := e.oneShot(db.ActiveReplicatorTypePush)
+	if !(ok1 && ok2 && ok3 && ok4) {
+		rec.Err("infrastructure: lwread catch-up")
+		return
+	}
+	input := map[string]any{"protocol": c06Proto(true), "scenario": fmt.Sprintf("lwread-%d", idx), "steps": descs,
+		"read": map[bool]string{true: "GET ?rev=<cv>", false: "db.GetRev(cv)"}[useREST], "reads_in_flight": reads.Load()}
+	for i, d := range e.docs {
+		a, b := e.observe(0, d), e.observe(1, d)
+		if a.Exists == b.Exists && a.Deleted == b.Deleted && a.Body == b.Body && a.CV == b.CV {
+			continue
+		}
+		sig := c06StateSig(true, a, b)
+		if a.state() == "live" && b.state() == "live" && a.CV == want[d].CV && b.CV != a.CV {
+			sig = "vv:diverged:local-wins-stale-revcache-entry"
+		}
+		rec.Fail("peers_converged", sig, input,
+			fmt.Sprintf("doc %d at quiescence: active {rev %s cv %s body %s} passive {rev %s cv %s body %s}; the catch-up push reported %d conflict(s), %d read(s) by cv happened inside writes",
+				i, a.Rev, a.CV, a.Body, b.Rev, b.CV, b.Body, q1.DocWriteConflict, reads.Load()))
+	}
+	if p2.DocsRead != 0 || q2.DocsWritten != 0 {
+		rec.Fail("caught_up_no_transfer", "rerun-transfers-documents", input, fmt.Sprintf("re-running the caught-up replication read %d and wrote %d documents", p2.DocsRead, q2.DocsWritten))
+	}
+	rec.Count("lwread-vv", "lwread", strings.Join(descs, ";")+fmt.Sprint(idx), reads.Load() > 0)
+	rec.Extra(fmt.Sprintf("lwread_%d_reads_in_flight", idx), reads.Load())
+	for _, m := range e.infra {
+		rec.Err("infrastructure: " + strings.SplitN(m, ":", 2)[0])
+	}
+}
+
 // ---------------------------------------------------------------- resolver stream
 
 func c06ResolverStream(t *testing.T, rec *vRecorder, rng *vRand) {
@@ -1091,6 +1205,10 @@ func TestVerifC06(t *testing.T) {
 	for i := 0; i < vBudget(1, 8); i++ {
 		i := i
 		t.Run(fmt.Sprintf("burst-vv-%d", i), func(t *testing.T) { c06RunBurst(t, rec, rng, true, i) })
+	}
+	for i := 0; i < vBudget(3, 12); i++ {
+		i := i
+		t.Run(fmt.Sprintf("lwread-vv-%d", i), func(t *testing.T) { c06RunLocalWinsRead(t, rec, rng, i) })
 	}
 	rec.Extra("wall_s", time.Since(start).Seconds())
 	rec.Extra("exhaustive", false)
